@@ -1,9 +1,117 @@
 package main
 
-import "fmt"
+import (
+	"fmt"
+	"go/ast"
+	"go/parser"
+	"go/token"
+	"os"
+	"path/filepath"
+	"sort"
+	"strconv"
+	"strings"
+)
 
-// instrumentSchedule prepares a native replay of a recorded schedule (token passing at the preemption
-// sites). Filled in by the CONC replay support.
-func instrumentSchedule(repo, tmp string, d *replayDoc, ov map[string]string) error {
-	return fmt.Errorf("schedule replay not available")
+// instrumentSchedule prepares a native replay of a recorded schedule: before every statement at which the
+// schedule preempts a goroutine a call to the replay controller's hook is inserted (overlay copies only).
+func instrumentSchedule(repo, verif, tmp string, d *replayDoc, ov map[string]string) error {
+	type site struct{ line, col int }
+	byFile := map[string][]site{}
+	for _, e := range d.Sched {
+		if e.Kind != "preempt" || e.Pos == "" {
+			continue
+		}
+		parts := strings.Split(e.Pos, ":")
+		if len(parts) < 3 {
+			continue
+		}
+		file := strings.Join(parts[:len(parts)-2], ":")
+		line, _ := strconv.Atoi(parts[len(parts)-2])
+		col, _ := strconv.Atoi(parts[len(parts)-1])
+		byFile[file] = append(byFile[file], site{line, col})
+	}
+	harnessPkgDir := filepath.Clean(filepath.Join(repo, d.Pkg))
+	needSkiplistHook := false
+	for file, sites := range byFile {
+		src := file
+		if o, ok := ov[file]; ok {
+			src = o // already an overlay (harness file or shim)
+		}
+		b, err := os.ReadFile(src)
+		if err != nil {
+			return err
+		}
+		fset := token.NewFileSet()
+		f, err := parser.ParseFile(fset, file, b, parser.ParseComments)
+		if err != nil {
+			return err
+		}
+		hook := "vHook"
+		if filepath.Dir(file) != harnessPkgDir {
+			if filepath.Base(filepath.Dir(file)) != "skiplist" {
+				return fmt.Errorf("preemption site in unexpected package: %s", file)
+			}
+			hook = "vHookS"
+			needSkiplistHook = true
+		}
+		// insertion offsets
+		ins := map[int]string{}
+		for _, s := range sites {
+			var best ast.Stmt
+			ast.Inspect(f, func(n ast.Node) bool {
+				var list []ast.Stmt
+				switch x := n.(type) {
+				case *ast.BlockStmt:
+					list = x.List
+				case *ast.CaseClause:
+					list = x.Body
+				case *ast.CommClause:
+					list = x.Body
+				}
+				for _, st := range list {
+					p0, p1 := fset.Position(st.Pos()), fset.Position(st.End())
+					after := s.line > p0.Line || (s.line == p0.Line && s.col >= p0.Column)
+					before := s.line < p1.Line || (s.line == p1.Line && s.col <= p1.Column)
+					if after && before {
+						best = st // innermost wins because Inspect descends
+					}
+				}
+				return true
+			})
+			if best == nil {
+				return fmt.Errorf("no statement found at %s:%d:%d", file, s.line, s.col)
+			}
+			off := fset.Position(best.Pos()).Offset
+			ins[off] = fmt.Sprintf("%s(%q); ", hook, fmt.Sprintf("%s:%d:%d", file, s.line, s.col))
+		}
+		offs := make([]int, 0, len(ins))
+		for o := range ins {
+			offs = append(offs, o)
+		}
+		sort.Sort(sort.Reverse(sort.IntSlice(offs)))
+		out := string(b)
+		for _, o := range offs {
+			out = out[:o] + ins[o] + out[o:]
+		}
+		dst := filepath.Join(tmp, "sched_"+strings.ReplaceAll(strings.TrimPrefix(file, repo+"/"), "/", "_"))
+		if err := os.WriteFile(dst, []byte(out), 0644); err != nil {
+			return err
+		}
+		ov[file] = dst
+	}
+	if needSkiplistHook || d.Pkg != "./skiplist" {
+		b, err := os.ReadFile(filepath.Join(verif, "harness", "native", "hook_skiplist.go.tmpl"))
+		if err != nil {
+			return err
+		}
+		dst := filepath.Join(tmp, "hook_skiplist.go")
+		os.WriteFile(dst, b, 0644)
+		ov[filepath.Join(repo, "skiplist", "zz_verif_hook.go")] = dst
+		// the controller lives in the harness package; connect the skiplist hook to it
+		conn := "package " + map[string]string{".": "nitro", "./nodetable": "nodetable"}[d.Pkg] + "\n\nimport \"github.com/couchbase/nitro/skiplist\"\n\nfunc init() { skiplist.VerifHook = vHook }\n"
+		dst2 := filepath.Join(tmp, "hook_connect.go")
+		os.WriteFile(dst2, []byte(conn), 0644)
+		ov[filepath.Join(repo, d.Pkg, "zz_verif_hook_connect.go")] = dst2
+	}
+	return nil
 }
